@@ -156,7 +156,7 @@ impl Dec {
             let z = "0".repeat(1 + mix.below(3) as usize);
             return format!("{}{}{}.{}", sign, trim_lead(&digits), "0".repeat(exp as usize), z);
         }
-        if form == 1 && exp < 0 && exp >= -30 {
+        if form == 1 && exp < 0 && exp >= -80 {
             let mut s = plain_decimal(&digits, exp);
             for _ in 0..mix.below(3) {
                 s.push('0');
@@ -377,6 +377,8 @@ pub fn has_astral(s: &str) -> bool {
 // ---------------------------------------------------------------- strategies
 
 pub const SPECIAL_CHARS: &[char] = &[
+    // both sides of every UTF-8 length boundary, and code points in between
+    '\u{7ff}', '\u{800}', '\u{fff}', '\u{2000}', '\u{905}', '\u{e01}', '\u{fffe}',
     '\u{80}', '\u{e9}', '\u{2028}', '\u{2029}', '\u{d7ff}', '\u{e000}', '\u{ffff}', '\u{7f}', '\u{fffd}', '\u{5d0}', '\u{3042}',
 ];
 pub const ASTRAL_CHARS: &[char] = &['\u{1f603}', '\u{10000}', '\u{10ffff}', '\u{d8000}', '\u{1d11e}'];
@@ -451,6 +453,17 @@ pub fn arb_dec() -> BoxedStrategy<Dec> {
         // long decimal expansions (more digits than a double holds) and underflow to zero
         1 => ("[1-9][0-9]{17,30}", -40i32..-1, any::<bool>()).prop_map(|(d, e, n)| Dec { neg: n, digits: d, exp: e }),
         1 => ("[1-9][0-9]{0,5}", -400i32..-330).prop_map(|(d, e)| Dec { neg: false, digits: d, exp: e }),
+        // more than 32 digits after the point where the late digits decide the value: tiny numbers
+        // in plain notation, and decimals just above / below the midpoint of two adjacent doubles
+        1 => ("[1-9][0-9]{0,8}", -75i32..-33).prop_map(|(d, e)| Dec { neg: false, digits: d, exp: e }),
+        1 => prop::sample::select(vec![
+            ("100000000000000011102230246251565404236316680908203126", -53),
+            ("100000000000000011102230246251565404236316680908203124", -53),
+            ("1000000000000000055511151231257827021181583404541015625", -55),
+            ("29999999999999998889776975374843459576368331909179687", -52),
+            ("9007199254740992500000000000000000000000000000000000001", -39),
+            ("179769313486231570814527423731704356798070567525844996598917476803157260780028538760589558632766878171540458953514382464234321326889464182768467546703537516986049910576551282076245490090389328944075868508455133942304583236903222948165808559332123348274797826204144723168738177180919299881250404026184124858368", 0),
+        ]).prop_map(|(d, e)| Dec { neg: false, digits: d.to_string(), exp: e }),
         1 => ("[1-9][0-9]{0,5}", 0i32..300).prop_map(|(d, e)| Dec { neg: false, digits: d, exp: e }),
     ]
     .boxed()
